@@ -346,7 +346,7 @@ def run_check(prop, tier, seed, only_stream=None):
                             'opname': 'crash', 'args': '', 'impl': '', 'model': ''})
         # counts of mismatches beyond the printed cap still count
         extra = r['total'].get('mismatches', 0) - len(r['mism'])
-        if extra > 0 and not r['mism']:
+        if extra > 0:      # every mismatch has to be seen and classified: an unprinted one is unexplained
             unknown.append({'stream': st['name'], 'crash': 'mismatch count without lines', 'line': '', 'fam': 0, 'cfg': '',
                             'op': 0, 'opname': '?', 'args': '', 'impl': '', 'model': ''})
 
